@@ -779,7 +779,7 @@ func rulePopulationInsertSites(p *Program, r *Result, gk string, inserter *ssa.F
 				if bo.Op == token.NEQ {
 					nilEdge = b.Succs[1]
 				}
-				if call, idx, ok := extractOf(bo.X); ok && idx == 0 && len(call.Common().Args) > 0 && len(c.Common().Args) > 0 && call.Common().Args[0] == c.Common().Args[0] {
+				if call, idx, ok := extractOf(bo.X); ok && idx == 0 && len(call.Common().Args) > 0 && len(c.Common().Args) > 0 && sameObjectValue(call.Common().Args[0], c.Common().Args[0]) {
 					if (nilEdge == c.Block() || nilEdge.Dominates(c.Block())) && len(nilEdge.Preds) == 1 {
 						if g, _ := guardedBySuccess(call, c, nil); g {
 							good = true
